@@ -135,6 +135,15 @@ func NewCompositeSetup(w *World, g GenOpts) *Setup {
 	switch t.Pick(8, "oddhook") {
 	case 6:
 		tp.EmptyNS = !tp.SetNamespace
+	case 5:
+		tp.EchoAnnotations = g.PlainOwner
+		for _, r := range cfg.Children {
+			// with a Recreate strategy such a hook makes the unchanged tree delete and
+			// re-create the child for ever (recorded finding): kept only now and then
+			if strings.Contains(r.Method, "Recreate") && tp.EchoAnnotations && t.Pick(4, "keepecho") != 3 {
+				tp.EchoAnnotations = false
+			}
+		}
 	case 7:
 		// (only where asked for: with dynamic apply such a hook never converges on the
 		// unchanged tree - a recorded finding - and would drown every liveness oracle)
@@ -175,6 +184,7 @@ func NewCompositeSetup(w *World, g GenOpts) *Setup {
 		}
 	}
 	cfg.PlainOwnerHook = tp.PlainOwner
+	cfg.EchoHook = tp.EchoAnnotations
 	s.Sig = compositeSig(cfg, opts)
 	w.Cfg["parent"] = cfg.Parent.Kind
 	w.Cfg["ssa"] = fmt.Sprint(opts.Proc.SSA)
@@ -186,7 +196,7 @@ func NewCompositeSetup(w *World, g GenOpts) *Setup {
 		ms = append(ms, r.Res.Kind+":"+r.Method)
 	}
 	w.Cfg["children"] = strings.Join(ms, ",")
-	w.Cfg["program"] = fmt.Sprintf("ordered=%v derived=%v emptyNS=%v plainOwner=%v", tp.Ordered, tp.Derived, tp.EmptyNS, tp.PlainOwner)
+	w.Cfg["program"] = fmt.Sprintf("ordered=%v derived=%v emptyNS=%v plainOwner=%v echoAnnotations=%v", tp.Ordered, tp.Derived, tp.EmptyNS, tp.PlainOwner, tp.EchoAnnotations)
 	return s
 }
 
@@ -290,6 +300,11 @@ func (s *Setup) ParentEdits(b *EnvBudget) []EnvOp {
 				b.take()
 				n := w.T.Pick(5, "newreplicas")
 				EditObject(w, p.Res, p.NS, p.Name, "user", func(o Object) { setPath(o, int64(n), "spec", "replicas") })
+			}},
+			EnvOp{"rollback-color " + p.Name, func(w *World) {
+				// back to the template the parent started with (a rollback mid-rollout)
+				b.take()
+				EditObject(w, p.Res, p.NS, p.Name, "user", func(o Object) { setPath(o, "c0", "spec", "template", "color") })
 			}},
 			EnvOp{"renote " + p.Name, func(w *World) {
 				b.take()
